@@ -1,5 +1,5 @@
 import AmrK.WritersSizes
-import AmrK.ConstantsProps
+import AmrK.Obligations.ChkTables
 /-! # C17 — chk2plt carries the checkpoint's interior state into a valid plotfile -/
 namespace C17
 open Writers
